@@ -93,12 +93,15 @@ class watchdog:
     def __enter__(self):
         import signal
         self.old = signal.signal(signal.SIGVTALRM, self._fire)
-        signal.setitimer(signal.ITIMER_VIRTUAL, self.seconds)
+        # nestable: an enclosing watchdog (the per-case guard of the runner) is suspended and re-armed on exit
+        self.outer_left, _ = signal.setitimer(signal.ITIMER_VIRTUAL, self.seconds)
 
     def __exit__(self, *a):
         import signal
-        signal.setitimer(signal.ITIMER_VIRTUAL, 0)
+        left, _ = signal.setitimer(signal.ITIMER_VIRTUAL, 0)
         signal.signal(signal.SIGVTALRM, self.old)
+        if self.outer_left > 0:
+            signal.setitimer(signal.ITIMER_VIRTUAL, max(0.01, self.outer_left - (self.seconds - left)))
         return False
 
 
